@@ -480,6 +480,160 @@ func TestPropStatementAfterFault(t *testing.T) {
 	})
 }
 
+// ---- a second local transaction on the same pinned connection, same global transaction ---------
+
+type secondCase struct {
+	Kind   string `json:"kind"`   // second-tx
+	First  string `json:"first"`  // how the first local transaction ends: commit | rollback | register-refused
+	Stmt1  string `json:"stmt1"`  // update | insert | delete
+	Second string `json:"second"` // read-only | write-other-table | write-same-row
+}
+
+// runSecondTx: two explicit local transactions under one xid on one pinned connection. The undo-log record
+// written by the second one must describe the second one's writes and nothing else ("the business writes
+// and the undo-log record become durable together or not at all": a record for a write that is not part of
+// this local transaction — committed earlier, or rolled back — is durable without its write).
+func runSecondTx(c secondCase) *pt.Failure {
+	return pt.Guard("C02/crash", func() *pt.Failure {
+		env.ResetCase()
+		env.CleanUndo()
+		atenv.UndoConfig("json", "None", true, true)
+		n := atenv.NextCase()
+		t1, t2 := atenv.TableName(n, 0), atenv.TableName(n, 1)
+		for _, tn := range []string{t1, t2} {
+			for _, q := range []string{"CREATE TABLE " + tn + " (id INT PRIMARY KEY, v INT NOT NULL)", "INSERT INTO " + tn + " VALUES (1, 10), (2, 20)"} {
+				if _, err := env.Bare.Exec(q); err != nil {
+					return pt.Failf("C02/harness/setup", "%v", err)
+				}
+			}
+		}
+		defer env.DropTables([]string{t1, t2})
+		env.Srv.ResetJournal()
+		env.TC.Reset()
+		if c.First == "register-refused" {
+			env.TC.Script(message.MessageTypeBranchRegister, faketc.Action{Kind: faketc.Fail, Msg: "lock conflict"})
+		}
+		q1 := map[string]string{"update": "UPDATE " + t1 + " SET v = v + 1 WHERE id = 1", "insert": "INSERT INTO " + t1 + " VALUES (7, 70)", "delete": "DELETE FROM " + t1 + " WHERE id = 2"}[c.Stmt1]
+		q2 := map[string]string{"read-only": "SELECT v FROM " + t2 + " WHERE id = 2", "write-other-table": "UPDATE " + t2 + " SET v = v + 5 WHERE id = 2", "write-same-row": "UPDATE " + t1 + " SET v = v + 5 WHERE id = 1"}[c.Second]
+		var steps []string
+		var boundary int64
+		_, _ = atenv.Global("c02-second", func(cx context.Context) error {
+			conn, err := env.AT.Conn(cx)
+			if err != nil {
+				return err
+			}
+			defer conn.Close()
+			tx, err := conn.BeginTx(cx, nil)
+			if err != nil {
+				steps = append(steps, "begin1: "+err.Error())
+				return err
+			}
+			_, err = tx.ExecContext(cx, q1)
+			steps = append(steps, fmt.Sprintf("stmt1 err=%v", err))
+			if c.First == "rollback" {
+				err = tx.Rollback()
+			} else {
+				err = tx.Commit()
+			}
+			steps = append(steps, fmt.Sprintf("end1(%s) err=%v", c.First, err))
+			if j := env.Srv.Journal(); len(j) > 0 {
+				boundary = j[len(j)-1].Seq
+			}
+			tx, err = conn.BeginTx(cx, nil)
+			if err != nil {
+				steps = append(steps, "begin2: "+err.Error())
+				return err
+			}
+			if c.Second == "read-only" {
+				rows, e := tx.QueryContext(cx, q2)
+				if e == nil {
+					for rows.Next() {
+					}
+					rows.Close()
+				}
+				err = e
+			} else {
+				_, err = tx.ExecContext(cx, q2)
+			}
+			steps = append(steps, fmt.Sprintf("stmt2 err=%v", err))
+			err = tx.Commit()
+			steps = append(steps, fmt.Sprintf("commit2 err=%v", err))
+			return nil
+		})
+		// what the second local transaction wrote, and what its undo-log record describes
+		written := map[string]bool{}
+		var recorded []string
+		for _, e := range env.Srv.JournalSince(boundary) {
+			if e.Err != "" {
+				continue
+			}
+			if strings.Contains(strings.ToLower(e.Query), "insert into undo_log") {
+				for _, a := range e.Args {
+					b, ok := a.([]byte)
+					if !ok || !strings.Contains(string(b), "sqlUndoLogs") {
+						continue
+					}
+					var u struct {
+						Logs []struct {
+							TableName string `json:"tableName"`
+						} `json:"sqlUndoLogs"`
+					}
+					if err := json.Unmarshal(b, &u); err == nil {
+						for _, l := range u.Logs {
+							recorded = append(recorded, strings.ToLower(strings.Trim(l.TableName, "`")))
+						}
+					}
+				}
+				continue
+			}
+			if strings.Contains(strings.ToLower(e.Query), "undo_log") {
+				continue
+			}
+			for _, w := range e.Writes {
+				written[strings.ToLower(w.Table)] = true
+			}
+		}
+		info := fmt.Sprintf("first local transaction: %s, ends by %s; second: %s\nsteps: %v\n%s", q1, c.First, q2, steps, atenv.Tail(env.Srv.Journal(), 30))
+		if _, open, _ := env.Srv.Stats(); open != 0 {
+			return pt.Failf("C02/second-tx/transaction-left-open", "engine transaction left open on %v\n%s", env.Srv.OpenTxConns(), info)
+		}
+		wantRecords := 0
+		if c.Second != "read-only" {
+			wantRecords = 1
+		}
+		if len(recorded) > wantRecords {
+			return pt.Failf("C02/second-tx/undo-record-for-foreign-write/"+c.First+"/"+c.Second, "the second local transaction wrote %v, its undo log describes statements on %v\n%s", keysOf(written), recorded, info)
+		}
+		for _, tn := range recorded {
+			if !written[tn] {
+				return pt.Failf("C02/second-tx/undo-record-for-foreign-write/"+c.First+"/"+c.Second, "the second local transaction wrote %v, its undo log describes a statement on %s\n%s", keysOf(written), tn, info)
+			}
+		}
+		if len(written) > 0 && len(recorded) == 0 {
+			return pt.Failf("C02/second-tx/writes-without-undo-log/"+c.First+"/"+c.Second, "the second local transaction wrote %v without an undo-log record\n%s", keysOf(written), info)
+		}
+		return nil
+	})
+}
+
+func keysOf(m map[string]bool) []string {
+	var out []string
+	for k := range m {
+		out = append(out, k)
+	}
+	return out
+}
+
+func TestPropSecondLocalTx(t *testing.T) {
+	ctx.Check(t, func(rt *rapid.T) {
+		c := secondCase{Kind: "second-tx", First: rapid.SampledFrom([]string{"commit", "rollback", "register-refused"}).Draw(rt, "first"),
+			Stmt1: rapid.SampledFrom([]string{"update", "insert", "delete"}).Draw(rt, "stmt1"), Second: rapid.SampledFrom([]string{"read-only", "write-other-table", "write-same-row"}).Draw(rt, "second")}
+		fl := runSecondTx(c)
+		ctx.Rec.Case("second-tx", true, fmt.Sprintf("second-tx|%s|%s|%s", c.First, c.Stmt1, c.Second), c, "kind:second-tx")
+		ctx.Judge(rt, "second-tx", fl, c)
+	})
+}
+
 // TestPropRegisterNoReply: the coordinator never answers BranchRegister (thorough tier only: 20 s).
 func TestPropRegisterNoReply(t *testing.T) {
 	if !stats.Thorough() {
@@ -501,6 +655,10 @@ func TestPropReplaySaved(t *testing.T) {
 		if err := json.Unmarshal(v.Case, &a); err == nil && a.Kind == "after-fault" {
 			return runAfterFault(a)
 		}
+		var sc secondCase
+		if err := json.Unmarshal(v.Case, &sc); err == nil && sc.Kind == "second-tx" {
+			return runSecondTx(sc)
+		}
 		var c Case
 		if err := json.Unmarshal(v.Case, &c); err != nil {
 			return pt.Failf("C02/replay", "bad case: %v", err)
@@ -516,6 +674,20 @@ func TestReplay(t *testing.T) {
 		t.Skip("no VERIF_REPLAY_FILE")
 	}
 	defer ctx.Rec.Flush()
+	var a afterCase
+	var sc secondCase
+	if err := json.Unmarshal(v.Case, &a); err == nil && a.Kind == "after-fault" {
+		fl := runAfterFault(a)
+		ctx.Rec.Case("replay", true, string(v.Case), a)
+		ctx.Judge(t, v.Test, fl, a)
+		return
+	}
+	if err := json.Unmarshal(v.Case, &sc); err == nil && sc.Kind == "second-tx" {
+		fl := runSecondTx(sc)
+		ctx.Rec.Case("replay", true, string(v.Case), sc)
+		ctx.Judge(t, v.Test, fl, sc)
+		return
+	}
 	fl := runCase(c)
 	ctx.Rec.Case("replay", true, shape(c)+c.Plan, c)
 	ctx.Judge(t, v.Test, fl, c)
